@@ -40,6 +40,7 @@ from spyne.protocol.dictdoc import HierDictDocument
 import yaml
 
 from yaml.parser import ParserError
+from yaml.error import YAMLError
 try:
     from yaml import CLoader as Loader
     from yaml import CDumper as Dumper
@@ -167,7 +168,10 @@ class YamlDocument(HierDictDocument):
 
             ctx.in_document = yaml.load(s, **self.in_kwargs)
 
-        except ParserError as e:
+        except (YAMLError, ValueError) as e:
+            # YAMLError: the scanner, parser, composer, constructor and reader
+            # errors; ValueError: undecodable bytes, and what the constructors
+            # of PyYAML let through, e.g. for the timestamp 2020-13-45
             raise Fault('Client.YamlDecodeError', repr(e))
 
     def create_out_string(self, ctx, out_string_encoding='utf8'):
